@@ -305,7 +305,10 @@ def gen(rng, tier):
                 s2, cs2 = r - s, 'opposite'
             if rng.randrange(3) == 0:
                 t2, ct2 = t, 'equal'
-            yield 'additivity_check', [[e], [s, s2, t, t2]], '%s/%s,%s,%s,%s' % (tag, cs, cs2, ct, ct2)
+            acl = '%s/%s,%s,%s,%s' % (tag, cs, cs2, ct, ct2)
+            if fam in (2, 3) and (t + t2) % r == 0:
+                acl = 'mnt_g2_identity_sum/' + acl             # Q + Q' is the G2 identity: F18
+            yield 'additivity_check', [[e], [s, s2, t, t2]], acl
             yield 'output_order_divides_r', [[e], [s, t]], '%s/%s,%s' % (tag, cs, ct)
             yield 'prepared_vs_unprepared', [[e], [s, t]], '%s/%s,%s' % (tag, cs, ct)
         # identity in the G1 slot (every family)
@@ -355,7 +358,7 @@ def gen(rng, tier):
 
 def nontrivial(case, out):
     if case['op'] in LAW_OPS:
-        return case['op'] != 'generators_nondegenerate' or True
+        return True
     return len(case['args']) > 6 and any(any(x != 0 for x in a) for a in case['args'][6:])
 
 
@@ -376,11 +379,13 @@ TRUSTED = ['input construction in prop.py (affine scalar multiples of the dumped
            'law-level ops: the relation is evaluated by the Rust public API (PairingOutput ==, +, *); the model side is the constant specification']
 ASSUMPTIONS = ['default features (no parallel): cfg_chunks_mut! = chunks_mut',
                'prime-field arithmetic is Z mod p (C01 covers the Montgomery representation)']
-HYPOTHESES = ['tate_bilinear / tate_nondegenerate: bilinearity and non-degeneracy of the mathematical reduced (optimal) ate '
-              'pairing computed by the Miller function (divisor theory; not formalisable with the installed libraries)',
-              'cyclotomic-subgroup operation specifications (cyclotomic_square = square, conjugation = inverse, '
-              'Frobenius = p-power, exp_by_x = x-th power on unitary elements): premises of the exponent-chain theorems; '
-              'the first two are C02 theorems, the last two are C02 `_partial` statements',
-              'sparse multiplication = multiplication by the embedded line (C02_fp12_mul_by_014/034_spec), square = x*x: '
-              'premises `ell_is_mul`, `tsq_is_mul` of the multi-equals-product theorems',
-              'commutative-monoid laws of the target field multiplication']
+HYPOTHESES = ['tate_additive_l / tate_additive_r (LawProofs.v): the mathematical reduced (optimal) ate pairing is additive in each '
+              'argument (divisor theory / Weil reciprocity; not formalisable with the installed libraries); that the model value is '
+              'this pairing is NOT proved (bilinear_partial)',
+              'cgroup one mul inv U: commutative-group laws of the units of the target field (and of G1, G2 in LawProofs.v)',
+              'cyclotomic-subgroup operation specifications conj_Cy, conj_U, cyc_sq_spec, frob_spec, expx_spec / exp_neg_x_spec / '
+              'exp_w1_spec / exp_w0_spec / exp_m_spec / exp_d1_spec / exp_d2_spec, tinv_spec, Cy closed under mul/inv: premises of the '
+              'exponent-chain theorems (C02: quad_cyclotomic_inverse_spec; gs_square_partial, frobenius_is_pow_partial, exp_loop_naf_spec)',
+              'tmul_assoc, tmul_comm, tmul_1_l, tsq_is_mul, ell_is_mul (mul_by_014_is_mul / mul_by_034_is_mul), conj_mul, conj_one: '
+              'field-arithmetic premises of the multi-equals-product theorems (C02_zp_fp12_mul, _square, _mul_by_014, _mul_by_034, '
+              'C02_quadops_ring establish them for the tower over Z_p)']
